@@ -1,6 +1,8 @@
 ENGINES = [
     {'name': 'E1-enum', 'path': 'mc/engine_enum.py', 'serves_properties': ['C01', 'C02', 'C04', 'C05', 'C06', 'C07', 'C08', 'C09', 'C12', 'C13', 'C14', 'C19', 'C20'],
      'kind_free_text': 'sharded exhaustive enumeration of a finite input/configuration space of the real code against a reference model'},
+    {'name': 'E4-sched', 'path': 'mc/engine_sched.py', 'serves_properties': ['C10'],
+     'kind_free_text': 'stateless thread-schedule explorer: real threads driven one statement at a time by sys.settrace line events and a baton; cooperative RLock/Queue/sleep; depth-first enumeration of all schedules within a preemption bound (iterative context bounding) with work sharing over 16 processes'},
     {'name': 'E3-dev', 'path': 'mc/checks/c17.py', 'serves_properties': ['C13', 'C17', 'C18'],
      'kind_free_text': 'deviation-bounded / fault-point enumeration: the harness owns every environment answer (truncation point, corrupted byte, failing write, clock, consumer delay) and enumerates all runs up to a deviation bound'},
     {'name': 'E2-bfs', 'path': 'mc/engine_bfs.py', 'serves_properties': ['C03', 'C04', 'C05', 'C11', 'C15', 'C16'],
@@ -118,3 +120,9 @@ CHECKS['C18'] = dict(
     technique='crash-point enumeration on real sockets: every cut offset of every message stream x segmentations x consumption calls, then peer disconnect; loopback PortServer histories',
     text='A real SocketPort over socket.socketpair() receives every stream of up to 2 (3) messages cut at every byte offset, delivered in every segmentation (all 2^(n-1) for <= 8 bytes) with poll/iter_pending calls between segments, after which the peer closes or half-closes; the messages received in total must equal the parse of the bytes before the cut, iteration must end silently and the port report closed. Closing the port must give the peer EOF; format/parse_address are checked as inverses; a PortServer on loopback TCP must hand out every message of 0-2 clients exactly once via poll, iter_pending and blocking receive without polling forever.',
     note='AF_UNIX socketpair is synchronous; the TCP part waits (bounded) for delivery; behaviour of send after the peer has gone is not judged.')
+
+CHECKS['C10'] = dict(
+    engine='E4-sched', category='model_checking', design_ref='DESIGN.md 5/C10',
+    technique='stateless model checking of thread schedules: every interleaving of small multi-threaded programs on the real ports within a preemption bound (iterative context bounding), at statement granularity',
+    text='Eight (nine thorough) programs of 3-4 real threads - senders and receivers on EchoPort (receive, poll, iter_pending), on a lock-protected device double that moves one byte per statement, on the IOPort wrapper, on MultiPort (receive and send side) and on ParserQueue - are executed under every schedule with at most 1 preemption (2 thorough; +1 for the parser queue) and at most 2 (3) non-default choices at free switch points. Scheduling points are all statements of mido/ports.py, the parser queue and the doubles; locks, the queue and sleep are cooperative so that waiting is visible. Per schedule: no call raised, exactly-once delivery, per-sender order, received copy unaffected by the sender mutating its object, no deadlock or livelock. The default schedule is replayed twice to prove determinism.',
+    note='Parser/tokenizer internals atomic; interleavings within one source line not explored; more preemptions than the bound not covered; the sampled larger-programs clause of the property is not claimed. Known finding: IOPort wrapper double pop.')
